@@ -1,4 +1,5 @@
 SPECIFICATION Spec
 CONSTANTS
   OAuthEscapes = TRUE
+  SpecRouteEscaped = FALSE
 CHECK_DEADLOCK FALSE
